@@ -330,5 +330,16 @@ func genWriterScript(t *rapid.T, faults bool) []WEvent {
 			e.Kind = rapid.SampledFrom([]string{"", "", "F", "F", "S", "C"}).Draw(t, "wkind")
 		}
 	}
+	if len(evs) > 0 && rapid.IntRange(0, 9).Draw(t, "wforever") == 0 {
+		// the writer fails for good from its last scripted event on
+		e := &evs[len(evs)-1]
+		if !e.Err && e.Accept < 0 {
+			e.Accept = 0
+		}
+		if e.Kind == "" {
+			e.Kind = rapid.SampledFrom([]string{"", "F", "F", "S", "C"}).Draw(t, "wkindForever")
+		}
+		e.Forever = true
+	}
 	return evs
 }
